@@ -180,4 +180,82 @@ def formatI64 (value : Int) (format : Option CellFormat) (is1904 : Bool) : NumDa
   | some .timeDelta => .dateTime (.ofI64 value) .timeDelta is1904
   | _ => .int value
 
+/-! ## the per-workbook style tables: cell-XF index → `CellFormat`
+
+    The three readers build `formats: Vec<CellFormat>` from the workbook's number-format definitions and the list
+    of cell XFs; a numeric cell with style index `i` is then wrapped with `formats.get(i)`. The builders are
+    modelled over the already-parsed inputs (ids, format strings, XF list). -/
+
+/-- `BTreeMap::insert` for every definition in file order, then `get`: the last definition of a key wins -/
+def lastDef {κ α : Type} [BEq κ] : List (κ × α) → κ → Option α
+  | [], _ => none
+  | d :: ds, k =>
+    match lastDef ds k with
+    | some v => some v
+    | none => if d.1 == k then some d.2 else none
+
+/-- `Xlsx::read_styles` (`src/xlsx/mod.rs`): `numFmts` = the `(numFmtId, formatCode)` attributes of the `<numFmt>`
+    elements (an empty `formatCode` is not recorded), `cellXfs` = the `numFmtId` attribute of every `<xf>` of
+    `<cellXfs>` (`none` = attribute absent). A custom definition takes precedence over the built-in table; the
+    format string is scanned when an XF refers to it. -/
+def xlsxStyles (numFmts : List (List UInt8 × List Char)) : List (Option (List UInt8)) → Res (List CellFormat)
+  | [] => .ok []
+  | xf :: xfs =>
+    let one : Res CellFormat :=
+      match xf with
+      | none => .ok .other
+      | some id =>
+        match lastDef (numFmts.filter (fun d => !d.2.isEmpty)) id with
+        | some fmt => detect fmt
+        | none => .ok (builtinById id)
+    match one with
+    | .ok f =>
+      match xlsxStyles numFmts xfs with
+      | .ok fs => .ok (f :: fs)
+      | r => r
+    | .err e => .err e
+    | .panic m => .panic m
+    | .outOfFuel => .outOfFuel
+
+/-- every definition is scanned when its record is read (`BrtFmt` / `FORMAT`), used or not -/
+def detectAll : List (Nat × List Char) → Res (List (Nat × CellFormat))
+  | [] => .ok []
+  | d :: ds =>
+    match detect d.2 with
+    | .ok f =>
+      match detectAll ds with
+      | .ok fs => .ok ((d.1, f) :: fs)
+      | r => r
+    | .err e => .err e
+    | .panic m => .panic m
+    | .outOfFuel => .outOfFuel
+
+/-- `Xlsb::read_styles` (`src/xlsb/mod.rs`): `fmts` = the `BrtFmt` records `(ifmt, string)`, `xfs` = the `iFmt` of every
+    `BrtXF`. The BUILT-IN table takes precedence: only an id the built-in table calls `Other` is looked up among
+    the custom definitions. -/
+def xlsbStyles (fmts : List (Nat × List Char)) (xfs : List Nat) : Res (List CellFormat) :=
+  match detectAll fmts with
+  | .ok defs =>
+    .ok (xfs.map fun code =>
+      match builtinByCode code with
+      | .other => (lastDef defs code).getD .other
+      | f => f)
+  | .err e => .err e
+  | .panic m => .panic m
+  | .outOfFuel => .outOfFuel
+
+/-- `Xls::parse_workbook` (`src/xls.rs`, records FORMAT 0x041E and XF 0x00E0): `formats` = `(ifmt, string)` of the
+    FORMAT records, `xfs` = the `ifmt` of every XF record. A custom definition takes precedence over the built-in
+    table. -/
+def xlsStyles (formats : List (Nat × List Char)) (xfs : List Nat) : Res (List CellFormat) :=
+  match detectAll formats with
+  | .ok defs =>
+    .ok (xfs.map fun code =>
+      match lastDef defs code with
+      | some f => f
+      | none => builtinByCode code)
+  | .err e => .err e
+  | .panic m => .panic m
+  | .outOfFuel => .outOfFuel
+
 end Formats
